@@ -797,6 +797,43 @@ def check(case, M):
             break
         if m_ok == "1" and m_allinst != "1":
             raise RuntimeError("model listing contains a non-instantiation (contradicts C17_program_side)")
+    # ---- program side below a Lambda (oracle only: the Lean model has no lambda): the instantiations of
+    # (apply (lambda t) …) and of (lambda t) are the wrapped instantiations of t, each exactly once
+    from synth.syntax.program import Lambda as _Lambda, Function as _Function, Primitive as _Primitive
+    from synth.syntax import auto_type as _auto_type
+    _wrap = _Primitive("apply_fn", _auto_type("int -> int"))
+
+    def _unwrap(q):
+        if isinstance(q, _Lambda):
+            return ("lam", prog_h(q.body))
+        if isinstance(q, _Function) and q.function == _wrap and len(q.arguments) == 1 and isinstance(q.arguments[0], _Lambda):
+            return ("app-lam", prog_h(q.arguments[0].body))
+        return ("other", str(q))
+    n_lam = 0
+    for t in psample:
+        if n_lam >= 6 or failures:
+            break
+        if not _slots(t):
+            continue
+        has_missing = (not FX[2]) and any(s[1] not in table and (s[2] == "" or not FX[0]) for s in _const_heads(t))
+        has_assigned = (not FX[0]) and any(s[2] != "" and s[1] in table for s in _const_heads(t))
+        dup = (not FX[1]) and any(s[1] in table and len(set(table[s[1]])) != len(table[s[1]]) and (s[2] == "" or not FX[0]) for s in _const_heads(t))
+        if has_missing or has_assigned or dup:
+            continue
+        n_lam += 1
+        want = sorted(key(x) for x in insts(table, t))
+        for kind, q in (("lam", _Lambda(R(t))), ("app-lam", _Function(_wrap, [_Lambda(R(t))]))):
+            try:
+                got = [_unwrap(x) for x in q.all_constants_instantiation(tbl_repo)]
+            except Exception as e:  # noqa
+                fail("oracle", "all_constants_instantiation raises on a program with a lambda", f"{kind} {show(t)}: {type(e).__name__}")
+                break
+            if any(g[0] != kind for g in got) or sorted(key(g[1]) for g in got) != want:
+                fail("oracle", "all_constants_instantiation does not list the instantiations of a program below a lambda exactly once",
+                     f"{kind} {show(t)}: {len(got)} listed, {len(want)} instantiations")
+                break
+    if n_lam:
+        tags.append("program-side.lambda")
     # ---- program side, constants in head position (never produced by the grammars: built by hand)
     def heads_to_slots(t):
         h, args = t
